@@ -6,8 +6,6 @@
 //! and a set of direct oracles that do not depend on the model evaluates the property on the
 //! engine's own results (see `oracles`).
 use std::collections::BTreeMap;
-use std::io::{BufRead, BufReader, Write};
-use std::process::{Child, ChildStdin, ChildStdout, Command, Stdio};
 
 use tera::{Context, Delimiters, Tera, Value};
 use tera_verif_harness::report::{out_path, replay_path, Report};
@@ -282,13 +280,21 @@ fn classify(msg: &str) -> &'static str {
     }
 }
 
-fn build_engine(case: &Case) -> Result<Tera, String> {
+fn build_engine_raw(case: &Case) -> Result<Tera, String> {
     let mut tera = Tera::default();
     tera.add_raw_templates(case.sources()).map_err(|e| format!("{e}"))?;
     for (k, v) in &case.global {
         tera.global_context().insert_value(k.clone(), v.clone());
     }
     Ok(tera)
+}
+
+/// Registration (and the display of a registration error) may panic: that is an outcome
+fn build_engine(case: &Case) -> Result<Tera, String> {
+    match catch(std::panic::AssertUnwindSafe(|| build_engine_raw(case))) {
+        Ok(r) => r,
+        Err(p) => Err(format!("panic {p}")),
+    }
 }
 
 fn context_of(case: &Case) -> Context {
@@ -314,10 +320,10 @@ fn render_outcome(tera: &Tera, name: &str, ctx: &Context) -> String {
 }
 
 fn run_real(case: &Case) -> String {
-    match catch(std::panic::AssertUnwindSafe(|| build_engine(case))) {
-        Err(p) => format!("panic {p}"),
-        Ok(Err(e)) => format!("adderr {}", e.lines().next().unwrap_or("")),
-        Ok(Ok(tera)) => render_outcome(&tera, &case.templates[0].0, &context_of(case)),
+    match build_engine(case) {
+        Err(e) if e.starts_with("panic ") => e,
+        Err(e) => format!("adderr {}", e.lines().next().unwrap_or("")),
+        Ok(tera) => render_outcome(&tera, &case.templates[0].0, &context_of(case)),
     }
 }
 
@@ -353,35 +359,6 @@ fn model_request(case: &Case) -> Result<String, String> {
     s.push_str(&enc_ctx("X", &case.ctx));
     s.push_str(&enc_ctx("G", &case.global));
     Ok(s)
-}
-
-/// A driver process kept open (used by the shrinker, which asks one question at a time)
-struct ModelProc {
-    child: Child,
-    stdin: ChildStdin,
-    stdout: BufReader<ChildStdout>,
-}
-impl ModelProc {
-    fn start(exe: &std::path::Path) -> Option<ModelProc> {
-        let mut child = Command::new(exe).stdin(Stdio::piped()).stdout(Stdio::piped()).stderr(Stdio::null()).spawn().ok()?;
-        let stdin = child.stdin.take()?;
-        let stdout = BufReader::new(child.stdout.take()?);
-        Some(ModelProc { child, stdin, stdout })
-    }
-    fn ask(&mut self, req: &str) -> Option<String> {
-        self.stdin.write_all(req.as_bytes()).ok()?;
-        self.stdin.write_all(b"\n").ok()?;
-        self.stdin.flush().ok()?;
-        let mut line = String::new();
-        self.stdout.read_line(&mut line).ok()?;
-        if line.is_empty() { None } else { Some(line.trim_end().to_string()) }
-    }
-}
-impl Drop for ModelProc {
-    fn drop(&mut self) {
-        let _ = self.child.kill();
-        let _ = self.child.wait();
-    }
 }
 
 // ------------------------------------------------------------------ generators
@@ -1279,6 +1256,14 @@ fn oracle_type_errors(out: &mut Vec<Check>) {
             }
         }
     }
+    // membership and equality are by value across the numeric encodings
+    let threes = [Value::from(3u64), Value::from(3i64), Value::from(3u128), Value::from(3i128), Value::from(3.0f64)];
+    for a in &threes {
+        for bv in &threes {
+            let ctx = vec![("a".to_string(), a.clone()), ("b".to_string(), Value::from(vec![Value::from(9), bv.clone()])), ("c".to_string(), bv.clone())];
+            out.push(Check { oracle: "in.by_value_across_encodings", case: simple_case("oracle.type_errors", "{{ a in b }}/{{ a not in b }}/{{ a == c }}/{{ (a + 1) in b }}/{{ 3 in b }}", ctx, vec![]), expect: Expect::Text("true/false/true/false/true".into()) });
+        }
+    }
     for ka in ALL_K {
         for a in kind_values(ka) {
             let ctx = vec![("a".to_string(), a.clone())];
@@ -1463,6 +1448,8 @@ fn inline_includes(ss: &[St], templates: &[(String, Vec<St>)]) -> Vec<St> {
 fn has_assignment(ss: &[St]) -> bool {
     ss.iter().any(|s| match s {
         St::Set(..) | St::SetBlock(..) => true,
+        // templates given as source text
+        St::Text(t) if t.contains("{% set") => true,
         St::FilterSection(_, b) => has_assignment(b),
         St::If(br, els) => br.iter().any(|(_, bd)| has_assignment(bd)) || els.as_ref().is_some_and(|e| has_assignment(e)),
         St::For(_, _, _, b, e) => has_assignment(b) || has_assignment(e),
@@ -1564,6 +1551,92 @@ fn judge(check: &Check, got: &str) -> Option<String> {
             (want != got).then(|| format!("outcome {} differs from upper-cased {} of the reference program", show_outcome(got), show_outcome(&o)))
         }
     }
+}
+
+// ------------------------------------------------------------------ exhaustive small programs
+
+/// every statement list with exactly `n` nodes over a small alphabet of statements
+fn small_lists(n: usize, in_loop: bool, can_break: bool, depth: usize) -> Vec<Vec<St>> {
+    if n == 0 {
+        return vec![vec![]];
+    }
+    let mut out = Vec::new();
+    // first statement has k nodes, the rest n - k
+    for k in 1..=n {
+        let firsts = small_stmts(k, in_loop, can_break, depth);
+        if firsts.is_empty() {
+            continue;
+        }
+        let rests = small_lists(n - k, in_loop, can_break, depth);
+        for f in &firsts {
+            for r in &rests {
+                let mut v = vec![f.clone()];
+                v.extend(r.iter().cloned());
+                out.push(v);
+            }
+        }
+    }
+    out
+}
+
+fn small_stmts(k: usize, in_loop: bool, can_break: bool, depth: usize) -> Vec<St> {
+    let probe = |name: &str| St::Print(Ex::Filter(b(atom(name)), "default".into(), vec![("value".into(), str_lit("~"))]));
+    if k == 1 {
+        let mut v = vec![St::Text("a".into()), probe("p"), St::Set("p".into(), atom("i"), false), St::Set("p".into(), str_lit("G"), true), St::Include("inc".into())];
+        if in_loop {
+            v.push(St::Print(atom("x")));
+            v.push(St::Print(atom("loop.index")));
+            v.push(St::Set("x".into(), str_lit("S"), false));
+        }
+        if can_break {
+            v.push(St::Break);
+            v.push(St::Continue);
+        }
+        return v;
+    }
+    let mut v = Vec::new();
+    for body in small_lists(k - 1, in_loop, can_break, depth) {
+        v.push(St::If(vec![(atom("c"), body.clone())], None));
+    }
+    for body in small_lists(k - 1, in_loop, false, depth) {
+        v.push(St::SetBlock("p".into(), vec![], body.clone(), false));
+        v.push(St::FilterSection("upper".into(), body));
+    }
+    if depth < 2 {
+        for body in small_lists(k - 1, true, true, depth + 1) {
+            v.push(St::For(None, "x".into(), atom("xs"), body, vec![]));
+        }
+        // for / else: split the remaining nodes
+        for nb in 1..k - 1 {
+            for body in small_lists(nb, true, true, depth + 1) {
+                for els in small_lists(k - 1 - nb, in_loop, can_break, depth) {
+                    v.push(St::For(None, "x".into(), atom("xs"), body.clone(), els));
+                }
+            }
+        }
+    }
+    v
+}
+
+/// all programs with at most `max_nodes` statement nodes, each under four contexts (condition
+/// true / false, loop target empty / two elements), with a fixed included template that reads the
+/// includer's variables and assigns
+fn exhaustive_small(max_nodes: usize) -> Vec<Case> {
+    let inc = tpl("[{{ p | default(value=\"~\") }}{{ x | default(value=\"~\") }}]{% set p = \"I\" %}{% set_global q = 1 %}");
+    let mut out = Vec::new();
+    for n in 1..=max_nodes {
+        for body in small_lists(n, false, false, 0) {
+            for (c, xs) in [(true, vec![3, 4]), (false, vec![3, 4]), (true, vec![])] {
+                out.push(Case {
+                    templates: vec![("main".into(), body.clone()), ("inc".into(), inc.clone())],
+                    ctx: vec![("c".into(), Value::from(c)), ("i".into(), Value::from(7)), ("xs".into(), Value::from(xs.iter().map(|x| Value::from(*x)).collect::<Vec<_>>()))],
+                    global: vec![("p".into(), Value::from("glob"))],
+                    stream: "exhaustive_small".into(),
+                });
+            }
+        }
+    }
+    out
 }
 
 // ------------------------------------------------------------------ shrinking
@@ -1782,16 +1855,83 @@ fn case_from_json(j: &serde_json::Value) -> Option<Case> {
 
 // ------------------------------------------------------------------ main
 
-fn par_map<T: Sync, R: Send>(items: &[T], threads: usize, f: impl Fn(&T) -> R + Sync) -> Vec<R> {
+/// Parallel map with a hang guard: `on_hang(i)` is called (from a watchdog thread) when item `i`
+/// has been running for more than `CASE_TIMEOUT_MS`; it is expected not to return.
+const CASE_TIMEOUT_MS: u64 = 20_000;
+
+fn par_map<T: Sync, R: Send>(items: &[T], threads: usize, f: impl Fn(&T) -> R + Sync, on_hang: impl Fn(usize) + Sync) -> Vec<R> {
+    use std::sync::atomic::{AtomicU64, AtomicUsize, Ordering};
     if items.is_empty() {
         return Vec::new();
     }
     let chunk = items.len().div_ceil(threads).max(1);
+    let n_chunks = items.len().div_ceil(chunk);
+    let t0 = std::time::Instant::now();
+    // per worker: index of the item being processed (+1; 0 = idle) and when it started (ms)
+    let cur: Vec<AtomicUsize> = (0..n_chunks).map(|_| AtomicUsize::new(0)).collect();
+    let since: Vec<AtomicU64> = (0..n_chunks).map(|_| AtomicU64::new(0)).collect();
+    let done = AtomicUsize::new(0);
     std::thread::scope(|s| {
-        let f = &f;
-        let hs: Vec<_> = items.chunks(chunk).map(|c| s.spawn(move || c.iter().map(f).collect::<Vec<R>>())).collect();
+        let (f, cur, since, done, on_hang) = (&f, &cur, &since, &done, &on_hang);
+        let hs: Vec<_> = items
+            .chunks(chunk)
+            .enumerate()
+            .map(|(w, c)| {
+                s.spawn(move || {
+                    // counts the worker as finished even if it unwinds
+                    struct Done<'a>(&'a AtomicUsize);
+                    impl Drop for Done<'_> {
+                        fn drop(&mut self) {
+                            self.0.fetch_add(1, Ordering::SeqCst);
+                        }
+                    }
+                    let _guard = Done(done);
+                    let out = c
+                        .iter()
+                        .enumerate()
+                        .map(|(k, x)| {
+                            since[w].store(t0.elapsed().as_millis() as u64, Ordering::SeqCst);
+                            cur[w].store(w * chunk + k + 1, Ordering::SeqCst);
+                            let r = f(x);
+                            cur[w].store(0, Ordering::SeqCst);
+                            r
+                        })
+                        .collect::<Vec<R>>();
+                    out
+                })
+            })
+            .collect();
+        s.spawn(move || {
+            while done.load(Ordering::SeqCst) < n_chunks {
+                std::thread::sleep(std::time::Duration::from_millis(200));
+                let now = t0.elapsed().as_millis() as u64;
+                for w in 0..n_chunks {
+                    let i = cur[w].load(Ordering::SeqCst);
+                    if i != 0 && now.saturating_sub(since[w].load(Ordering::SeqCst)) > CASE_TIMEOUT_MS && cur[w].load(Ordering::SeqCst) == i {
+                        on_hang(i - 1);
+                    }
+                }
+            }
+        });
         hs.into_iter().flat_map(|h| h.join().unwrap()).collect()
     })
+}
+
+/// A render that does not come back: write a result file that says so and stop (the hanging thread
+/// cannot be cancelled)
+fn report_hang(case: &Case, what: &str) -> ! {
+    let mut report = Report::new("C03");
+    report.evaluations = 1;
+    report.oracle_checks = 1;
+    report.oracle_failures = 1;
+    report.violation(
+        "property",
+        format!("{what}: the render did not return within {} s (a loop that never ends, or `break`/`continue` leaving the wrong loop)", CASE_TIMEOUT_MS / 1000),
+        serde_json::json!({"oracle": "render_terminates", "case": case_json(case), "rerun": "harness/target/release/c03 --replay <this file>"}),
+    );
+    report.rule = "aborted: a render hung".into();
+    report.write(&out_path());
+    std::process::exit(0);
 }
 
 fn comparable(model: &str) -> bool {
@@ -1832,9 +1972,23 @@ fn main() {
     if let Some(path) = replay_path() {
         let text = std::fs::read_to_string(&path).expect("replay file");
         let j: serde_json::Value = serde_json::from_str(&text).expect("replay json");
+        // the check script wraps the harness's replay object: {"property", "summary", "replay": {..}}
+        let j = if j.get("replay").is_some_and(|r| r.is_object()) { j["replay"].clone() } else { j };
         let case = case_from_json(&j["case"]).expect("case");
         println!("templates: {:?}", case.sources());
-        let real = run_real(&case);
+        // the engine may not come back on this case: give it the same cap as the check does
+        let (tx, rx) = std::sync::mpsc::channel();
+        let c2 = case.clone();
+        std::thread::spawn(move || {
+            let _ = tx.send(run_real(&c2));
+        });
+        let real = match rx.recv_timeout(std::time::Duration::from_millis(CASE_TIMEOUT_MS)) {
+            Ok(r) => r,
+            Err(_) => {
+                println!("implementation: the render did not return within {} s", CASE_TIMEOUT_MS / 1000);
+                std::process::exit(0);
+            }
+        };
         println!("implementation: {}", show_outcome(&real));
         match model_request(&case) {
             Ok(req) => match driver::run_batch(&exe, &[req]) {
@@ -1855,73 +2009,6 @@ fn main() {
     let mut rng = Rng::new(env.seed);
     let mut hist: BTreeMap<String, u64> = BTreeMap::new();
 
-    // ---- programs
-    let mut programs: Vec<Case> = Vec::new();
-    for _ in 0..env.budget(6000, 80_000) {
-        programs.push(gen_program(&mut rng, false, false, false, &mut hist));
-    }
-    for _ in 0..env.budget(2000, 25_000) {
-        programs.push(gen_program(&mut rng, true, false, false, &mut hist));
-    }
-    for _ in 0..env.budget(1200, 12_000) {
-        programs.push(gen_program(&mut rng, false, true, false, &mut hist));
-    }
-    // programs whose includes can be inlined (the included templates do not assign)
-    for _ in 0..env.budget(1500, 20_000) {
-        let c = gen_program(&mut rng, false, false, true, &mut hist);
-        if c.templates.iter().any(|(_, b)| src_of(b).contains("include")) {
-            programs.push(c);
-        }
-    }
-    // ---- oracle checks
-    let mut checks: Vec<Check> = Vec::new();
-    for _ in 0..env.budget(6, 60) {
-        oracle_short_circuit(&mut rng, &mut checks);
-        oracle_if(&mut rng, &mut checks);
-        oracle_undefined(&mut rng, &mut checks);
-        oracle_loops(&mut rng, &mut checks);
-    }
-    for _ in 0..env.budget(1, 6) {
-        oracle_scoping(&mut rng, &mut checks);
-    }
-    oracle_type_errors(&mut checks);
-    let n_fixed = checks.len();
-    for (i, p) in programs.iter().enumerate() {
-        if p.stream == "include_inline" || i % env.budget(3, 2) == 0 {
-            derived_checks(p, &mut checks);
-        }
-    }
-    for (k, v) in hist {
-        report.count_n(&k, v);
-    }
-    report.count_n("oracle.fixed_checks", n_fixed as u64);
-    report.count_n("oracle.derived_checks", (checks.len() - n_fixed) as u64);
-
-    // ---- the engine on everything
-    let n_prog = programs.len();
-    let mut all_cases: Vec<&Case> = programs.iter().collect();
-    all_cases.extend(checks.iter().map(|c| &c.case));
-    let real: Vec<String> = par_map(&all_cases, threads, |c| run_real(c));
-
-    // ---- the model on everything the parser accepted
-    let reqs: Vec<Option<String>> = par_map(&all_cases, threads, |c| model_request(c).ok());
-    let idx: Vec<usize> = (0..all_cases.len()).filter(|i| reqs[*i].is_some() && !real[*i].starts_with("adderr")).collect();
-    let lines: Vec<String> = idx.iter().map(|i| reqs[*i].clone().unwrap()).collect();
-    let model: Vec<Option<String>> = match driver::run_batch_parallel(&exe, &lines, threads) {
-        Ok(m) => {
-            let mut out = vec![None; all_cases.len()];
-            for (k, i) in idx.iter().enumerate() {
-                out[*i] = Some(m[k].clone());
-            }
-            out
-        }
-        Err(e) => {
-            report.notes.push(format!("model driver unavailable: {e}"));
-            report.violation("model-mismatch", format!("model driver could not be run: {e}"), serde_json::json!({"stage": "driver", "error": e}));
-            vec![None; all_cases.len()]
-        }
-    };
-
     // ---- float printing of the driver against the engine (ties the `fmtF64` parameter)
     {
         let mut fs: Vec<f64> = vec![0.0, -0.0, 1.0, 0.1, 1e16, 9999999999999998.0, 1e-4, 0.00009999, 5e-324, f64::MAX, f64::MIN_POSITIVE, 1e21, 123456789.125, 0.3, 2.5e-5, f64::NAN, f64::INFINITY, f64::NEG_INFINITY];
@@ -1930,117 +2017,226 @@ fn main() {
             fs.push((rng.range(-100000, 100000) as f64) / (rng.range(1, 1000) as f64));
         }
         let reqs: Vec<String> = fs.iter().map(|f| format!("fmtf {}", encode(&Value::from(*f)))).collect();
-        if let Ok(ans) = driver::run_batch_parallel(&exe, &reqs, threads) {
-            for (f, a) in fs.iter().zip(ans.iter()) {
-                report.model_comparisons += 1;
-                let want = format!("ok {}", hex(format!("{}", Value::from(*f)).as_bytes()));
-                if *a != want {
-                    report.model_disagreements += 1;
-                    report.violation(
-                        "model-mismatch",
-                        format!("float text: model {} vs engine {:?} for bits {:016x}", show_outcome(a), format!("{}", Value::from(*f)), f.to_bits()),
-                        serde_json::json!({"stage": "correspondence:float-format", "bits": format!("{:016x}", f.to_bits())}),
-                    );
+        match driver::run_batch_parallel(&exe, &reqs, threads) {
+            Ok(ans) => {
+                for (f, a) in fs.iter().zip(ans.iter()) {
+                    report.model_comparisons += 1;
+                    let want = format!("ok {}", hex(format!("{}", Value::from(*f)).as_bytes()));
+                    if *a != want {
+                        report.model_disagreements += 1;
+                        report.violation(
+                            "model-mismatch",
+                            format!("float text: model {} vs engine {:?} for bits {:016x}", show_outcome(a), format!("{}", Value::from(*f)), f.to_bits()),
+                            serde_json::json!({"stage": "correspondence:float-format", "detail": {"stage": "correspondence:float-format"}, "bits": format!("{:016x}", f.to_bits())}),
+                        );
+                    }
                 }
+                report.count_n("float_format.compared", fs.len() as u64);
             }
-            report.count_n("float_format.compared", fs.len() as u64);
+            Err(e) => {
+                report.notes.push(format!("model driver unavailable: {e}"));
+                report.violation("model-mismatch", format!("model driver could not be run: {e}"), serde_json::json!({"stage": "driver", "error": e}));
+            }
         }
     }
 
-    if std::env::var("VERIF_DEBUG_ADDERR").is_ok() {
-        let mut seen = std::collections::BTreeMap::new();
-        for (i, c) in all_cases.iter().enumerate() {
-            if real[i].starts_with("adderr") {
-                seen.entry(real[i].clone()).or_insert_with(|| c.sources());
+    // ---- fixed oracle programs
+    let mut fixed: Vec<Check> = Vec::new();
+    for _ in 0..env.budget(6, 60) {
+        oracle_short_circuit(&mut rng, &mut fixed);
+        oracle_if(&mut rng, &mut fixed);
+        oracle_undefined(&mut rng, &mut fixed);
+        oracle_loops(&mut rng, &mut fixed);
+    }
+    for _ in 0..env.budget(1, 6) {
+        oracle_scoping(&mut rng, &mut fixed);
+    }
+    oracle_type_errors(&mut fixed);
+    report.count_n("oracle.fixed_checks", fixed.len() as u64);
+
+    // ---- batches (bounded memory): generate, run engine and model, compare, judge
+    let total_programs = env.budget(30_000, 400_000);
+    let batch_size = 16_000;
+    let mut distinct: std::collections::HashSet<u64> = std::collections::HashSet::new();
+    let mut mismatches: Vec<Case> = Vec::new();
+    let mut n_mismatch_total = 0u64;
+    // (check, verdict, derived from a generated program)
+    let mut oracle_fail: Vec<(Check, String, bool)> = Vec::new();
+    let (mut ok_directed, mut n_directed) = (0u64, 0u64);
+    let mut driver_ok = report.violations.is_empty();
+    let mut made = 0usize;
+    let mut first_batch = true;
+    // exhaustive part: every statement tree with at most 3 (quick) / 4 (thorough) nodes
+    let max_nodes = env.budget(3, 4);
+    let mut small = exhaustive_small(max_nodes);
+    report.count_n("exhaustive_small.programs", small.len() as u64);
+    report.notes.push(format!("exhaustive over statement trees with at most {max_nodes} nodes (alphabet: text, probe, set, set_global, include, loop variable, loop.index, set of the loop variable, break, continue; if, set block, filter section, for, for/else; 3 contexts each): {} programs", small.len()));
+    while made < total_programs || first_batch || !small.is_empty() {
+        let n = batch_size.min(total_programs - made);
+        made += n;
+        let mut programs: Vec<Case> = Vec::with_capacity(n);
+        let take = small.len().min(batch_size.saturating_sub(n).max(4000));
+        programs.extend(small.drain(..take));
+        for k in 0..n {
+            // 55 % directed, 18 % adversarial, 10 % autoescaping, 17 % include-inline candidates
+            let c = match k % 100 {
+                0..=54 => gen_program(&mut rng, false, false, false, &mut hist),
+                55..=72 => gen_program(&mut rng, true, false, false, &mut hist),
+                73..=82 => gen_program(&mut rng, false, true, false, &mut hist),
+                _ => gen_program(&mut rng, false, false, true, &mut hist),
+            };
+            programs.push(c);
+        }
+        let mut checks: Vec<Check> = if first_batch { std::mem::take(&mut fixed) } else { Vec::new() };
+        first_batch = false;
+        let n_fixed = checks.len();
+        for (i, p) in programs.iter().enumerate() {
+            if p.stream == "include_inline" || p.stream == "exhaustive_small" || i % env.budget(3, 2) == 0 {
+                derived_checks(p, &mut checks);
             }
         }
-        for (k, v) in seen.iter().take(40) {
-            eprintln!("{k}\n   {v:?}");
+        report.count_n("oracle.derived_checks", (checks.len() - n_fixed) as u64);
+
+        let n_prog = programs.len();
+        let mut all_cases: Vec<&Case> = programs.iter().collect();
+        all_cases.extend(checks.iter().map(|c| &c.case));
+        let real: Vec<String> = par_map(&all_cases, threads, |c| run_real(c), |i| report_hang(all_cases[i], "render"));
+        let reqs: Vec<Option<String>> = par_map(&all_cases, threads, |c| model_request(c).ok(), |_| {});
+        let idx: Vec<usize> = (0..all_cases.len()).filter(|i| reqs[*i].is_some() && !real[*i].starts_with("adderr")).collect();
+        let model: Vec<Option<String>> = if !driver_ok {
+            vec![None; all_cases.len()]
+        } else {
+            let lines: Vec<String> = idx.iter().map(|i| reqs[*i].clone().unwrap()).collect();
+            match driver::run_batch_parallel(&exe, &lines, threads) {
+                Ok(m) => {
+                    let mut out = vec![None; all_cases.len()];
+                    for (k, i) in idx.iter().enumerate() {
+                        out[*i] = Some(m[k].clone());
+                    }
+                    out
+                }
+                Err(e) => {
+                    driver_ok = false;
+                    report.notes.push(format!("model driver unavailable: {e}"));
+                    report.violation("model-mismatch", format!("model driver could not be run: {e}"), serde_json::json!({"stage": "driver", "error": e}));
+                    vec![None; all_cases.len()]
+                }
+            }
+        };
+
+        if std::env::var("VERIF_DEBUG_ADDERR").is_ok() {
+            let mut seen = std::collections::BTreeMap::new();
+            for (i, c) in all_cases.iter().enumerate() {
+                if real[i].starts_with("adderr") {
+                    seen.entry(real[i].clone()).or_insert_with(|| c.sources());
+                }
+            }
+            for (k, v) in seen.iter().take(40) {
+                eprintln!("{k}\n   {v:?}");
+            }
+        }
+
+        // statistics and comparison
+        for (i, c) in all_cases.iter().enumerate() {
+            report.evaluations += 1;
+            let class = real[i].split(' ').take(if real[i].starts_with("err") { 2 } else { 1 }).collect::<Vec<_>>().join(" ");
+            let stream = if i < n_prog { c.stream.clone() } else { "oracle".to_string() };
+            report.count(&format!("outcome.{stream}.{class}"));
+            if i < n_prog {
+                report.count(&format!("size.{}", match c.size() { 0..=15 => "00-15", 16..=40 => "16-40", 41..=100 => "41-100", _ => "100+" }));
+                if c.stream == "directed" {
+                    n_directed += 1;
+                    if real[i].starts_with("ok") {
+                        ok_directed += 1;
+                    }
+                }
+            }
+            if !real[i].starts_with("adderr") {
+                if let Some(r) = &reqs[i] {
+                    use std::hash::{Hash, Hasher};
+                    let mut h = std::collections::hash_map::DefaultHasher::new();
+                    r.hash(&mut h);
+                    if distinct.insert(h.finish()) {
+                        report.distinct_nontrivial += 1;
+                    }
+                }
+            }
+            if let Some(m) = &model[i] {
+                if !comparable(m) {
+                    report.count(&format!("model.{}", m.split(' ').next().unwrap_or("")));
+                    continue;
+                }
+                report.model_comparisons += 1;
+                if *m != real[i] {
+                    report.model_disagreements += 1;
+                    n_mismatch_total += 1;
+                    if mismatches.len() < 3 {
+                        mismatches.push((*c).clone());
+                    }
+                }
+            }
+        }
+
+        // direct oracles
+        let check_idx: Vec<usize> = (0..checks.len()).collect();
+        let verdicts: Vec<Option<String>> = par_map(&check_idx, threads, |k| judge(&checks[*k], &real[n_prog + *k]), |i| report_hang(&checks[i].case, "reference program of an oracle"));
+        for (k, v) in verdicts.into_iter().enumerate() {
+            report.oracle_checks += 1;
+            report.count(&format!("oracle.{}", checks[k].oracle));
+            if let Some(d) = v {
+                report.oracle_failures += 1;
+                if oracle_fail.len() < 5 {
+                    oracle_fail.push((checks[k].clone(), d, k >= n_fixed));
+                }
+            }
+        }
+        // nothing survives a render: same instance, same context, another render in between
+        let repeat_fail: Vec<Option<String>> = par_map(
+            &programs,
+            threads,
+            |c| {
+                let tera = build_engine(c).ok()?;
+                let ctx = context_of(c);
+                let a = render_outcome(&tera, &c.templates[0].0, &ctx);
+                let mut other = Context::new();
+                other.insert_value("xs", Value::from(vec![Value::from(7)]));
+                other.insert_value("p0", Value::from("other"));
+                let _ = render_outcome(&tera, &c.templates[0].0, &other);
+                let b2 = render_outcome(&tera, &c.templates[0].0, &ctx);
+                if a != b2 {
+                    return Some(format!("first render {} but after another render {}", show_outcome(&a), show_outcome(&b2)));
+                }
+                match iterate_targets_nonzero(&tera, c) {
+                    Ok(_) => None,
+                    Err(e) => Some(format!("Iterate target: {e}")),
+                }
+            },
+            |i| report_hang(&programs[i], "repeated render"),
+        );
+        for (i, r) in repeat_fail.iter().enumerate() {
+            report.oracle_checks += 1;
+            report.count("oracle.render_repeatable_and_iterate_target");
+            if let Some(d) = r {
+                report.oracle_failures += 1;
+                report.violation("property", format!("nothing survives a render: {d}"), serde_json::json!({"case": case_json(&programs[i]), "oracle": "render_repeatable", "rerun": "harness/target/release/c03 --replay <this file>"}));
+            }
+        }
+        // samples
+        for i in [0usize, n_prog / 2, n_prog + 1, all_cases.len() - 1] {
+            if i < all_cases.len() && report.samples.len() < 8 {
+                report.sample(serde_json::json!({"templates": all_cases[i].sources(), "implementation": show_outcome(&real[i]), "model": model[i].as_deref().map(show_outcome)}));
+            }
         }
     }
-    // ---- statistics and comparison
-    let mut distinct = std::collections::HashSet::new();
-    let mut mismatches: Vec<usize> = Vec::new();
-    let mut ok_directed = 0u64;
-    let mut n_directed = 0u64;
-    for (i, c) in all_cases.iter().enumerate() {
-        report.evaluations += 1;
-        let class = real[i].split(' ').take(if real[i].starts_with("err") { 2 } else { 1 }).collect::<Vec<_>>().join(" ");
-        let stream = if i < n_prog { c.stream.clone() } else { "oracle".to_string() };
-        report.count(&format!("outcome.{stream}.{class}"));
-        if i < n_prog {
-            report.count(&format!("size.{}", match c.size() { 0..=15 => "00-15", 16..=40 => "16-40", 41..=100 => "41-100", _ => "100+" }));
-            if c.stream == "directed" {
-                n_directed += 1;
-                if real[i].starts_with("ok") {
-                    ok_directed += 1;
-                }
-            }
-        }
-        if !real[i].starts_with("adderr") {
-            if let Some(r) = &reqs[i] {
-                if distinct.insert(r.clone()) {
-                    report.distinct_nontrivial += 1;
-                }
-            }
-        }
-        if let Some(m) = &model[i] {
-            if !comparable(m) {
-                report.count(&format!("model.{}", m.split(' ').next().unwrap_or("")));
-                continue;
-            }
-            report.model_comparisons += 1;
-            if *m != real[i] {
-                report.model_disagreements += 1;
-                mismatches.push(i);
-            }
-        }
+    for (k, v) in hist {
+        report.count_n(&k, v);
     }
     report.count_n("directed.rendered_without_error_percent", if n_directed > 0 { ok_directed * 100 / n_directed } else { 0 });
-
-    // ---- direct oracles
-    let check_idx: Vec<usize> = (0..checks.len()).collect();
-    let verdicts: Vec<Option<String>> = par_map(&check_idx, threads, |k| judge(&checks[*k], &real[n_prog + *k]));
-    let mut oracle_fail: Vec<(usize, String)> = Vec::new();
-    for (k, v) in verdicts.into_iter().enumerate() {
-        report.oracle_checks += 1;
-        report.count(&format!("oracle.{}", checks[k].oracle));
-        if let Some(d) = v {
-            report.oracle_failures += 1;
-            oracle_fail.push((k, d));
-        }
-    }
-    // nothing survives a render: same instance, same context, another render in between
-    let repeat_fail: Vec<Option<String>> = par_map(&programs, threads, |c| {
-        let tera = build_engine(c).ok()?;
-        let ctx = context_of(c);
-        let a = render_outcome(&tera, &c.templates[0].0, &ctx);
-        let mut other = Context::new();
-        other.insert_value("xs", Value::from(vec![Value::from(7)]));
-        other.insert_value("p0", Value::from("other"));
-        let _ = render_outcome(&tera, &c.templates[0].0, &other);
-        let b2 = render_outcome(&tera, &c.templates[0].0, &ctx);
-        if a != b2 {
-            return Some(format!("first render {} but after another render {}", show_outcome(&a), show_outcome(&b2)));
-        }
-        match iterate_targets_nonzero(&tera, c) {
-            Ok(_) => None,
-            Err(e) => Some(format!("Iterate target: {e}")),
-        }
-    });
-    for (i, r) in repeat_fail.iter().enumerate() {
-        report.oracle_checks += 1;
-        report.count("oracle.render_repeatable_and_iterate_target");
-        if let Some(d) = r {
-            report.oracle_failures += 1;
-            report.violation("property", format!("nothing survives a render: {d}"), serde_json::json!({"case": case_json(&programs[i]), "oracle": "render_repeatable", "rerun": "harness/target/release/c03 --replay <this file>"}));
-        }
-    }
+    let _ = n_mismatch_total;
 
     // ---- report oracle failures (shrunk when the program came from the generator)
-    for (k, d) in oracle_fail.iter().take(5) {
-        let chk = &checks[*k];
-        let (case, detail) = if *k >= n_fixed {
+    for (chk, d, derived) in oracle_fail.iter() {
+        let (case, detail) = if *derived {
             // derived check: shrink the underlying program while the same oracle still fails
             let base = match &chk.expect {
                 Expect::SameAs(o) | Expect::UpperOf(o) => (**o).clone(),
@@ -2078,20 +2274,18 @@ fn main() {
 
     // ---- model disagreements: shrink, look for a property failure around the case, else report
     if oracle_fail.is_empty() && !mismatches.is_empty() {
-        let mut proc = ModelProc::start(&exe);
-        for i in mismatches.iter().take(3) {
-            let case = all_cases[*i].clone();
+        for case in mismatches.iter() {
             let mut pred = |c: &Case| {
                 let r = run_real(c);
                 if r.starts_with("adderr") {
                     return false;
                 }
-                match (model_request(c), proc.as_mut()) {
-                    (Ok(req), Some(p)) => p.ask(&req).is_some_and(|m| comparable(&m) && m != r),
+                match model_request(c) {
+                    Ok(req) => driver::run_batch(&exe, &[req]).ok().is_some_and(|m| comparable(&m[0]) && m[0] != r),
                     _ => false,
                 }
             };
-            let small = shrink(&case, &mut pred, 4000);
+            let small = shrink(case, &mut pred, 1500);
             // targeted burst: the property's own oracles on the shrunk program and its neighbours
             let mut burst: Vec<Check> = Vec::new();
             derived_checks(&small, &mut burst);
@@ -2110,7 +2304,7 @@ fn main() {
                 None => report.violation(
                     "model-mismatch",
                     format!("model {} vs implementation {} on {:?}", show_outcome(&model_small), show_outcome(&real_small), small.sources()),
-                    serde_json::json!({"stage": "correspondence:eval-render", "case": case_json(&small), "model": show_outcome(&model_small), "implementation": show_outcome(&real_small), "rerun": "harness/target/release/c03 --replay <this file>"}),
+                    serde_json::json!({"stage": "correspondence:eval-render", "detail": {"stage": "correspondence:eval-render"}, "case": case_json(&small), "model": show_outcome(&model_small), "implementation": show_outcome(&real_small), "rerun": "harness/target/release/c03 --replay <this file>"}),
                 ),
             }
         }
@@ -2129,12 +2323,6 @@ fn main() {
         report.notes.push(format!("observation O-include-undef: `{{% set x = nope %}}` with context x=1: includer/include see {}", show_outcome(&run_real(&c))));
     }
 
-    // ---- samples
-    for i in [0usize, n_prog / 3, n_prog / 2, n_prog - 1, n_prog + 1, n_prog + n_fixed / 2, all_cases.len() - 1] {
-        if i < all_cases.len() {
-            report.sample(serde_json::json!({"templates": all_cases[i].sources(), "implementation": show_outcome(&real[i]), "model": model[i].as_deref().map(show_outcome)}));
-        }
-    }
     report.rule = "a case is a set of templates (main + included) with a context and a global context; it counts as distinct by its full model request (real AST of every template + both contexts) and as non-trivial when the real parser accepted it (every generated program contains at least one of: loop, assignment, capture, include, conditional, short-circuit operator, undefined-tolerant form); the share of directed programs that render without error is in histogram key directed.rendered_without_error_percent".into();
     report.write(&out_path());
 }
